@@ -148,6 +148,13 @@ def run(ctx, res):
         if consistent(c):
             cases.append(c)
     run_cases(ctx, res, cases)
+    # histories on one input object: the relations between the algorithms must also hold when the same input is
+    # solved again after its costs were changed in place (thl vs lca with transfers forbidden in particular)
+    for c in rng.sample(cases, min(len(cases), ctx.budget(40, 400))):
+        other = dict(solvers.full_costs(c), hgt="inf")
+        plain = strip_syntenies(c) if "strip_syntenies" in globals() else c
+        if not solvers.inplace_history(res, c, other, "thl", what_prefix="general DTL solver reused across cost changes: "):
+            break
 
 
 def shrink(ctx, violation):
